@@ -4,19 +4,43 @@
 (*                                                                                *)
 (* A token is LIVE from the moment the acquire call that produced it RETURNED to  *)
 (* its caller until the moment its release (drop / return-to-cache displacement)  *)
-(* STARTS.  The contract talks about live tokens, the reclamation threshold min   *)
-(* of each manager, the counters a manager reports, and which managers still      *)
-(* exist.  Every action carries what the implementation was observed to do.       *)
+(* STARTS.  A token obtained through with_reader_token / with_writer_token is the *)
+(* same thing: live when the closure starts; at the end of the closure it goes to *)
+(* the per-thread cache (Ok) - where it stays live - or is released (Err).  A      *)
+(* token sitting in a cache (the per-thread one or a TokenCache object of the     *)
+(* user) is live until it is displaced, cleared or handed out again.              *)
+(* The contract talks about live tokens, the reclamation threshold min of each    *)
+(* manager, the counters a manager reports, which managers still exist, and the   *)
+(* items of the lazy free lists.  Every action carries what the implementation    *)
+(* was observed to do.                                                            *)
 EXTENDS Naturals, Sequences, FiniteSets
 
 VARIABLES
     live,      \* set of [id, kind, ver, mgr, tracked]  (kind "R"/"W"; mgr = manager the CALLER asked)
     mgrs,      \* function manager name -> [level, alive, addr]
-    freed      \* set of ages handed to the free callback so far (observation only)
+    freed,     \* set of ages handed to the free callback so far (observation only)
+    lfl,       \* function lazy-free-list name -> bulk threshold it was created with
+    pend       \* set of [l, off, age]: items retired into list l and not yet handed to the free callback
+
+tokvars == <<live, mgrs, freed>>
+lfvars  == <<lfl, pend>>
+
+Levels == {"NoWriteReadOnly", "SingleThreadStrict", "SingleThreadShared", "OneWriteMultiRead", "MultiWriteMultiRead"}
 
 Sync(level) == level \in {"SingleThreadShared", "OneWriteMultiRead", "MultiWriteMultiRead"}
 
-TokInit == live = {} /\ mgrs = [x \in {} |-> 0] /\ freed = {}
+(* What each concurrency level promises.  The clauses of the property are scoped by these  *)
+(* predicates (one writer <-> not acw in the multi-reader levels; versions / threshold      *)
+(* <-> sync), so the predicates the library reports must be these.                          *)
+LevelFacts(level) ==
+    [acr  |-> level \in {"OneWriteMultiRead", "MultiWriteMultiRead"},   \* allows_concurrent_readers
+     acw  |-> level = "MultiWriteMultiRead",                            \* allows_concurrent_writers
+     sync |-> Sync(level),                                              \* requires_synchronization
+     lazy |-> Sync(level),                                              \* uses_lazy_cleanup
+     maxw |-> IF level = "NoWriteReadOnly" THEN <<0>>                   \* max_concurrent_writers (option)
+              ELSE IF level = "MultiWriteMultiRead" THEN <<>> ELSE <<1>>]
+
+TokInit == live = {} /\ mgrs = [x \in {} |-> 0] /\ freed = {} /\ lfl = [x \in {} |-> 0] /\ pend = {}
 
 LiveOf(m, k) == { t \in live : t.mgr = m /\ t.kind = k /\ t.tracked }
 
@@ -33,35 +57,77 @@ MinNotAboveLive(m, min) == \A t \in live : (t.mgr = m /\ t.tracked /\ Sync(mgrs[
 CountsMatch(m, ar, aw) == /\ ar = Cardinality(LiveOf(m, "R"))
                           /\ aw = Cardinality(LiveOf(m, "W"))
 
+(* what a live token reports about itself: tk = [valid, tmin, lvl]                          *)
+(*   valid : is_valid() - a live token is valid                                             *)
+(*   tmin  : min_version() - the threshold read when the token was issued; thresholds only  *)
+(*           grow, so it is still not above any live token, the token itself included       *)
+(*   lvl   : concurrency_level() - the level of the manager asked                           *)
+TokenFacts(m, ver, tracked, tk) ==
+    /\ tk.valid = TRUE
+    /\ tk.lvl = mgrs[m].level
+    /\ tracked => (tk.tmin <= ver /\ MinNotAboveLive(m, tk.tmin))
+
 (* ---- actions ---- *)
 
-NewManager(m, level, addr) ==
+NewManager(m, level, addr, facts) ==
     /\ m \notin DOMAIN mgrs
+    /\ level \in Levels
+    /\ facts = LevelFacts(level)
     /\ mgrs' = [x \in DOMAIN mgrs \cup {m} |-> IF x = m THEN [level |-> level, alive |-> TRUE, addr |-> addr] ELSE mgrs[x]]
-    /\ UNCHANGED <<live, freed>>
+    /\ UNCHANGED <<live, freed>> /\ UNCHANGED lfvars
 
 (* the manager object was destroyed (hook event vm.drop) *)
 DropManager(m) ==
     /\ m \in DOMAIN mgrs /\ mgrs[m].alive
     /\ mgrs' = [mgrs EXCEPT ![m].alive = FALSE]
-    /\ UNCHANGED <<live, freed>>
+    /\ UNCHANGED <<live, freed>> /\ UNCHANGED lfvars
 
-(* acquire returned a token to its caller *)
-AcquireOk(id, m, kind, ver, tracked) ==
+(* acquire returned a token to its caller (directly, or to the closure of with_*_token) *)
+AcquireOk(id, m, kind, ver, tracked, tk) ==
     /\ m \in DOMAIN mgrs /\ mgrs[m].alive
     /\ \A t \in live : t.id /= id
+    /\ TokenFacts(m, ver, tracked, tk)
     /\ live' = live \cup {[id |-> id, kind |-> kind, ver |-> ver, mgr |-> m, tracked |-> tracked]}
-    /\ UNCHANGED <<mgrs, freed>>
+    /\ UNCHANGED <<mgrs, freed>> /\ UNCHANGED lfvars
     /\ OneWriter'
 
 (* acquire was refused (busy / not allowed): always acceptable, nothing changes *)
-AcquireRefused(m, kind) == UNCHANGED <<live, mgrs, freed>>
+AcquireRefused(m, kind) == UNCHANGED tokvars /\ UNCHANGED lfvars
+
+(* a token handed out of the per-thread cache by manager m: it was live all the time (it   *)
+(* sat in the cache) and it is the token that was put there - same kind, same version;     *)
+(* from now on its holder treats it as a token of manager m                                *)
+HandOutCached(id, m, kind, ver, tracked, tk) ==
+    /\ m \in DOMAIN mgrs /\ mgrs[m].alive
+    /\ \E t \in live : t.id = id /\ t.kind = kind /\ t.ver = ver
+    /\ TokenFacts(m, ver, tracked, tk)
+    /\ live' = { t \in live : t.id /= id } \cup
+               {[id |-> id, kind |-> kind, ver |-> ver, mgr |-> m, tracked |-> tracked]}
+    /\ UNCHANGED <<mgrs, freed>> /\ UNCHANGED lfvars
+    /\ OneWriter'
+
+(* a live token was put into a cache (per-thread or user-owned): it stays live *)
+CachePut(id) ==
+    /\ \E t \in live : t.id = id
+    /\ UNCHANGED tokvars /\ UNCHANGED lfvars
+
+(* a TokenCache object handed a token back: it is the live token that was put there *)
+CacheGet(id, kind, ver, valid) ==
+    /\ \E t \in live : t.id = id /\ t.kind = kind /\ t.ver = ver
+    /\ valid = TRUE
+    /\ UNCHANGED tokvars /\ UNCHANGED lfvars
+
+(* a live token was lent to an operation (insert_with_token / lookup_with_token /          *)
+(* contains_with_token): it stays live, nothing else changes                               *)
+UseToken(id) ==
+    /\ \E t \in live : t.id = id
+    /\ UNCHANGED tokvars /\ UNCHANGED lfvars
 
 (* the release of a token starts: it stops being live *)
 ReleaseStart(id) ==
     /\ \E t \in live : t.id = id
     /\ live' = { t \in live : t.id /= id }
-    /\ UNCHANGED <<mgrs, freed>>
+    /\ UNCHANGED <<mgrs, freed>> /\ UNCHANGED lfvars
 
 (* the release callback ran against the manager at address addr (hook event vm.release):  *)
 (* the manager must still exist (NoDeadManagerTouch) and must be the manager the token was  *)
@@ -69,20 +135,64 @@ ReleaseStart(id) ==
 ReleaseCallback(addr, expectedMgr) ==
     /\ \E m \in DOMAIN mgrs : mgrs[m].addr = addr /\ mgrs[m].alive
     /\ expectedMgr \in DOMAIN mgrs /\ mgrs[expectedMgr].addr = addr
-    /\ UNCHANGED <<live, mgrs, freed>>
+    /\ UNCHANGED tokvars /\ UNCHANGED lfvars
 
 (* an observation of manager m while every thread is parked (quiet: no call in flight) *)
 Observe(m, min, ar, aw, quiet) ==
     /\ m \in DOMAIN mgrs /\ mgrs[m].alive
     /\ MinNotAboveLive(m, min)
     /\ quiet => CountsMatch(m, ar, aw)
-    /\ UNCHANGED <<live, mgrs, freed>>
+    /\ UNCHANGED tokvars /\ UNCHANGED lfvars
 
-(* lazy reclamation: items (ages) handed to the free callback under threshold min of m.   *)
-(* An item retired at or after a live token's version must not be freed.                  *)
-Reclaim(m, ages) ==
-    /\ \A i \in 1..Len(ages) : \A t \in live :
-          (t.mgr = m /\ t.tracked /\ Sync(mgrs[m].level)) => ages[i] < t.ver
-    /\ freed' = freed \cup { ages[i] : i \in 1..Len(ages) }
-    /\ UNCHANGED <<live, mgrs>>
+(* validate_token_version(ver) answered res while the manager reported threshold min and    *)
+(* current version cur: a version is valid iff it lies in [min, cur]; in particular the     *)
+(* version of a live token is valid (the threshold is not above it)                         *)
+Validate(m, ver, res, min, cur) ==
+    /\ m \in DOMAIN mgrs /\ mgrs[m].alive
+    /\ MinNotAboveLive(m, min)
+    /\ res = (min <= ver /\ ver <= cur)
+    /\ (\E t \in live : t.mgr = m /\ t.tracked /\ t.ver = ver) => res = TRUE
+    /\ UNCHANGED tokvars /\ UNCHANGED lfvars
+
+(* ---- lazy reclamation ---- *)
+
+PendOf(S, lst) == { p \in S : p.l = lst }
+
+NewLazyList(lst, thr) ==
+    /\ lst \notin DOMAIN lfl
+    /\ lfl' = [x \in DOMAIN lfl \cup {lst} |-> IF x = lst THEN thr ELSE lfl[x]]
+    /\ UNCHANGED tokvars /\ UNCHANGED pend
+
+(* item off retired into list lst at version age; len / bulk = what the list reports afterwards *)
+Retire(lst, off, age, len, bulk) ==
+    /\ lst \in DOMAIN lfl
+    /\ \A p \in pend : ~(p.l = lst /\ p.off = off)
+    /\ pend' = pend \cup {[l |-> lst, off |-> off, age |-> age]}
+    /\ len = Cardinality(PendOf(pend', lst))
+    /\ bulk = (len >= 2 * lfl[lst])
+    /\ UNCHANGED tokvars /\ UNCHANGED lfl
+
+(* process_safe_items(min, cb) on list lst, min being the threshold manager m reported: items    *)
+(* = the <<off, age>> pairs handed to the free callback, in order.  Each is a retired item with  *)
+(* its true age, handed over once; an item is handed over only if age < min (can_free), and     *)
+(* min is not above any live token, so an item retired at or after a live token's version is    *)
+(* never freed.  ret = the count the call returned; len / bulk = len() / should_bulk_process()  *)
+(* afterwards; page/pcan = can_free(min) of the probed ages.  Freeing nothing is always allowed. *)
+Reclaim(m, lst, min, items, ret, len, bulk, page, pcan) ==
+    LET recs == { [l |-> lst, off |-> items[i][1], age |-> items[i][2]] : i \in 1..Len(items) } IN
+    /\ m \in DOMAIN mgrs /\ mgrs[m].alive /\ lst \in DOMAIN lfl
+    /\ MinNotAboveLive(m, min)
+    /\ recs \subseteq pend
+    /\ Cardinality(recs) = Len(items)
+    /\ \A i \in 1..Len(items) :
+          /\ items[i][2] < min
+          /\ \A t \in live : (t.mgr = m /\ t.tracked /\ Sync(mgrs[m].level)) => items[i][2] < t.ver
+    /\ ret = Len(items)
+    /\ Len(page) = Len(pcan)
+    /\ \A i \in 1..Len(page) : pcan[i] = (page[i] < min)
+    /\ pend' = pend \ recs
+    /\ len = Cardinality(PendOf(pend', lst))
+    /\ bulk = (len >= 2 * lfl[lst])
+    /\ freed' = freed \cup { items[i][2] : i \in 1..Len(items) }
+    /\ UNCHANGED <<live, mgrs, lfl>>
 =============================================================================
